@@ -25,7 +25,7 @@ LIMIT = 256000
 SLACK = 64 * 1024
 RULE = ("one run = one (enc, serialisation, sender implementation) configuration with 4-8 seeded cases: plaintext lengths at "
         "limit-2..limit+2, limit+258/+259, 300,000 and far below, of compressibility class constant / periodic / random, raw "
-        "DEFLATE at levels 0-9 and zlib-wrapped streams, and bombs of 64-512 MiB logical size (constant and periodic) under a "
+        "DEFLATE at levels 0-9, zlib-wrapped streams and streams cut before their final block, and bombs of 64-512 MiB logical size (constant and periodic) under a "
         "valid tag; a case = one decryption with the zlib output counter and tracemalloc running; distinct = distinct "
         "(run, length, class, framing)")
 ASSUMPTIONS = [
@@ -153,6 +153,8 @@ def run(rng: Rng, tier: str, index: int) -> RunResult:
     for _ in range(crng.randrange(4, 8) if not thorough else crng.randrange(8, 14)):
         n = crng.pick(lens) if crng.chance(0.8) else crng.randrange(0, 400000)
         cases.append(("plain", n, crng.pick(["constant", "periodic", "random", "text"]), crng.pick(["joserfc", "peer-raw", "peer-raw", "peer-zlib-wrapped"])))
+    for _ in range(1 if not thorough else 3):
+        cases.append(("plain", crng.pick([1, 20, 1000, 65536, 131072, LIMIT - 1, LIMIT]), crng.pick(["periodic", "random", "text", "constant"]), "peer-truncated"))
     for _ in range(1 if not thorough else 2):
         cases.append(("bomb", crng.pick([64, 64, 128] if not thorough else [64, 128, 256, 512]), crng.pick(["constant", "periodic"]), "peer-raw"))
     for kind, n, cls, sender in cases:
@@ -181,7 +183,12 @@ def run(rng: Rng, tier: str, index: int) -> RunResult:
 
         def viol(sig, what):
             res.violation(ID, sig, "%s [%s]" % (what, label), dict(repro))
-        if logical <= LIMIT:
+        if sender == "peer-truncated":
+            res.fired("truncated-stream-under-valid-tag")
+            if status == "ok" and val != pt:
+                viol("truncated-stream:returned-%s" % ("prefix" if pt.startswith(val) else "other-data"),
+                     "a DEFLATE stream cut before its final block returned %d of %d plaintext octets without an error" % (len(val), len(pt)))
+        elif logical <= LIMIT:
             if status != "ok":
                 viol("within-limit:rejected:%s" % type(val).__name__, "a plaintext of %d octets (<= limit) was not returned: %s: %s" % (
                     logical, type(val).__name__, str(val)[:80]))
@@ -251,6 +258,13 @@ def make_token(prng, kind, n, cls, sender, alg, enc, form, pub, jkey):
         return tok, pt, logical
     if sender == "peer-zlib-wrapped":
         stream = zlib.compress(pt)
+    elif sender == "peer-truncated":
+        # a stream that stops before its final block (the peer's writer died, a length field cut it): what comes back,
+        # if anything, must be the whole plaintext - never a silent prefix
+        c = zlib.compressobj(prng.pick([1, 6, 9]), zlib.DEFLATED, -15)
+        stream = c.compress(pt) + c.flush()
+        cut = prng.pick([1, 2, 4, 8, max(1, len(stream) // 2), max(1, len(stream) // 10)])
+        stream = stream[:max(0, len(stream) - cut)]
     else:
         level = prng.pick([0, 1, 2, 3, 4, 5, 6, 7, 8, 9])
         c = zlib.compressobj(level, zlib.DEFLATED, -15)
@@ -278,7 +292,10 @@ def replay(repro: dict):
     out = []
     if repro["sender"] == "joserfc" and framing_problem(tok, key, pt):
         out.append(("compress:not-raw-deflate", framing_problem(tok, key, pt)))
-    if logical <= LIMIT:
+    if repro["sender"] == "peer-truncated":
+        if status == "ok" and val != pt:
+            out.append(("truncated-stream:returned-%s" % ("prefix" if pt.startswith(val) else "other-data"), "returned %d of %d" % (len(val), len(pt))))
+    elif logical <= LIMIT:
         if status != "ok":
             out.append(("within-limit:rejected:%s" % type(val).__name__, str(val)))
         elif val != pt:
